@@ -516,4 +516,235 @@ theorem unmarshalURL_none (p0 : Params) (vals : List (Bytes × List Bytes))
     (h : ∃ e ∈ vals, e.1 = [] ∨ e.2.length ≠ 1) : unmarshalURL p0 vals = none := by
   unfold unmarshalURL; rw [urlToKV_none vals h]
 
+/-! ### QUIC binary form -/
+
+/-- per-entry well-formedness for the binary form -/
+def EntryOK (e : Bytes × Bytes) : Prop :=
+  e.1 ≠ [] ∧ e.1.length < 65536 ∧ e.2.length < 65536 ∧ utf8Valid e.1 = true ∧ utf8Valid e.2 = true
+
+theorem readKVF_nil (f : Nat) (acc : List (Bytes × Bytes)) : readKVF f [] acc = some acc.reverse := by
+  cases f <;> rfl
+
+theorem readKVF_cons2 (f : Nat) (a b : Nat) (r : Bytes) (acc : List (Bytes × Bytes)) :
+    readKVF (f + 1) (a :: b :: r) acc =
+      (let kl := rd16 a b
+      if kl = 0 then none
+      else if r.length < kl then none
+      else
+        let k := r.take kl
+        let r2 := r.drop kl
+        if !utf8Valid k then none else
+        match r2 with
+        | c :: d :: r3 =>
+          let vl := rd16 c d
+          if r3.length < vl then none
+          else
+            let v := r3.take vl
+            if !utf8Valid v then none
+            else if acc.any (fun e => e.1 = k) then none
+            else readKVF f (r3.drop vl) ((k, v) :: acc)
+        | _ => none) := by
+  rfl
+
+theorem readKVF_step (f : Nat) (k v rest : Bytes) (acc : List (Bytes × Bytes)) (he : EntryOK (k, v))
+    (hacc : acc.any (fun e => decide (e.1 = k)) = false) :
+    readKVF (f + 1) (be16 k.length ++ k ++ be16 v.length ++ v ++ rest) acc = readKVF f rest ((k, v) :: acc) := by
+  obtain ⟨h0, hkl, hvl, hku, hvu⟩ := he
+  simp only at h0 hkl hvl hku hvu
+  have hk0 : k.length ≠ 0 := by intro h; exact h0 (List.eq_nil_of_length_eq_zero h)
+  have e1 : rd16 (k.length / 256 % 256) (k.length % 256) = k.length := by unfold rd16; omega
+  have e2 : rd16 (v.length / 256 % 256) (v.length % 256) = v.length := by unfold rd16; omega
+  simp only [be16, List.cons_append, List.nil_append, List.append_assoc, readKVF_cons2, e1]
+  simp only [hk0, if_false, List.length_append, List.take_left, List.drop_left, hku, Bool.not_true, Bool.false_eq_true,
+    List.length_cons, e2, hvu, hacc]
+  rw [if_neg (by omega), if_neg (by omega)]
+
+
+theorem marshalBinKV_cons (k v : Bytes) (r : List (Bytes × Bytes)) :
+    marshalBinKV ((k, v) :: r) = be16 k.length ++ k ++ be16 v.length ++ v ++ marshalBinKV r := rfl
+
+theorem readKVF_marshal : ∀ (kvs acc : List (Bytes × Bytes)) (f : Nat), (∀ e ∈ kvs, EntryOK e) →
+    (∀ e ∈ kvs, acc.any (fun x => decide (x.1 = e.1)) = false) → (kvs.map (·.1)).Nodup →
+    (marshalBinKV kvs).length ≤ f → readKVF f (marshalBinKV kvs) acc = some (acc.reverse ++ kvs) := by
+  intro kvs
+  induction kvs with
+  | nil => intro acc f _ _ _ _; simp [marshalBinKV, readKVF_nil]
+  | cons e r ih =>
+    intro acc f hok hdis hnd hf
+    obtain ⟨k, v⟩ := e
+    rw [marshalBinKV_cons] at hf ⊢
+    cases f with
+    | zero => simp [be16] at hf
+    | succ f =>
+      rw [readKVF_step f k v _ acc (hok (k, v) (by simp)) (hdis (k, v) (by simp))]
+      simp only [List.map_cons, List.nodup_cons] at hnd
+      rw [ih ((k, v) :: acc) f (fun e he => hok e (by simp [he])) ?_ hnd.2 ?_]
+      · simp
+      · intro e he
+        simp only [List.any_cons, Bool.or_eq_false_iff, decide_eq_false_iff_not]
+        refine ⟨?_, hdis e (by simp [he])⟩
+        intro hke
+        exact hnd.1 (List.mem_map.2 ⟨e, he, hke.symm⟩)
+      · simp only [List.length_append, be16, List.length_cons, List.length_nil] at hf; omega
+
+theorem be16_rd16 (a b : Nat) (ha : a < 256) (hb : b < 256) : be16 (rd16 a b) = [a, b] := by
+  have h1 : (a * 256 + b) / 256 % 256 = a := by omega
+  have h2 : (a * 256 + b) % 256 = b := by omega
+  simp only [be16, rd16, h1, h2]
+
+theorem readKVF_sound : ∀ (f : Nat) (bs : Bytes) (acc res : List (Bytes × Bytes)), (∀ b ∈ bs, b < 256) →
+    readKVF f bs acc = some res →
+    ∃ kvs, res = acc.reverse ++ kvs ∧ bs = marshalBinKV kvs ∧ (∀ e ∈ kvs, EntryOK e) ∧
+      (∀ e ∈ kvs, acc.any (fun x => decide (x.1 = e.1)) = false) ∧ (kvs.map (·.1)).Nodup := by
+  intro f
+  induction f with
+  | zero =>
+    intro bs acc res _ h
+    cases bs with
+    | nil => rw [readKVF_nil] at h; exact ⟨[], by simpa using (Option.some.inj h).symm, rfl, by simp, by simp, by simp⟩
+    | cons a r => simp [readKVF] at h
+  | succ f ih =>
+    intro bs acc res hb h
+    match bs, hb, h with
+    | [], _, h => rw [readKVF_nil] at h; exact ⟨[], by simpa using (Option.some.inj h).symm, rfl, by simp, by simp, by simp⟩
+    | [a], _, h => simp [readKVF] at h
+    | a :: b :: r, hb, h =>
+      rw [readKVF_cons2] at h
+      simp only at h
+      split at h; · simp at h
+      split at h; · simp at h
+      split at h; · simp at h
+      split at h
+      · rename_i hk0 hkl hku r2 c d r3 hr2
+        split at h; · simp at h
+        split at h; · simp at h
+        split at h; · simp at h
+        rename_i hvl hvu hacc
+        have ha : a < 256 := hb a (by simp)
+        have hb' : b < 256 := hb b (by simp)
+        have hr : ∀ x ∈ r, x < 256 := fun x hx => hb x (by simp [hx])
+        have hr2' : ∀ x ∈ c :: d :: r3, x < 256 := fun x hx => hr x (List.mem_of_mem_drop (hr2 ▸ hx))
+        have hc : c < 256 := hr2' c (by simp)
+        have hd : d < 256 := hr2' d (by simp)
+        have hr3 : ∀ x ∈ r3, x < 256 := fun x hx => hr2' x (by simp [hx])
+        obtain ⟨kvs, h1, h2, h3, h4, h5⟩ := ih _ _ _ (fun x hx => hr3 x (List.mem_of_mem_drop hx)) h
+        have lk : (List.take (rd16 a b) r).length = rd16 a b := by rw [List.length_take]; omega
+        have lv : (List.take (rd16 c d) r3).length = rd16 c d := by rw [List.length_take]; omega
+        refine ⟨(List.take (rd16 a b) r, List.take (rd16 c d) r3) :: kvs, ?_, ?_, ?_, ?_, ?_⟩
+        · rw [h1]; simp
+        · rw [marshalBinKV_cons, lk, lv, ← h2]
+          rw [be16_rd16 a b ha hb', be16_rd16 c d hc hd]
+          simp only [List.cons_append, List.nil_append, List.append_assoc, List.take_append_drop]
+          rw [← hr2, List.take_append_drop]
+        · intro e he
+          rcases List.mem_cons.1 he with rfl | he
+          · refine ⟨?_, ?_, ?_, ?_, ?_⟩
+            · intro hnil; simp only at hnil; rw [hnil] at lk; simp at lk; omega
+            · show (List.take (rd16 a b) r).length < 65536
+              rw [lk]; unfold rd16; omega
+            · show (List.take (rd16 c d) r3).length < 65536
+              rw [lv]; unfold rd16; omega
+            · simpa using hku
+            · simpa using hvu
+          · exact h3 e he
+        · intro e he
+          rcases List.mem_cons.1 he with rfl | he
+          · exact Bool.eq_false_iff.2 hacc
+          · have := h4 e he
+            simp only [List.any_cons, Bool.or_eq_false_iff] at this
+            exact this.2
+        · simp only [List.map_cons, List.nodup_cons]
+          refine ⟨?_, h5⟩
+          intro hmem
+          obtain ⟨e, he, hke⟩ := List.mem_map.1 hmem
+          have := h4 e he
+          simp only [List.any_cons, Bool.or_eq_false_iff, decide_eq_false_iff_not] at this
+          exact this.1 hke.symm
+      · simp at h
+
+theorem readKV_iff (bs : Bytes) (hb : ∀ b ∈ bs, b < 256) (kvs : List (Bytes × Bytes)) :
+    readKV bs = some kvs ↔ (bs = marshalBinKV kvs ∧ (∀ e ∈ kvs, EntryOK e) ∧ (kvs.map (·.1)).Nodup) := by
+  constructor
+  · intro h
+    obtain ⟨kvs', h1, h2, h3, _, h5⟩ := readKVF_sound _ _ _ _ hb h
+    simp only [List.reverse_nil, List.nil_append] at h1
+    subst h1
+    exact ⟨h2, h3, h5⟩
+  · rintro ⟨rfl, h3, h5⟩
+    unfold readKV
+    rw [readKVF_marshal kvs [] _ h3 (by simp) h5 (Nat.le_refl _)]
+    simp
+
+
+/-- `Short` of Props/C17.lean, unbundled -/
+structure PShort (p : Params) : Prop where
+  enc : p.enc.length < 65536
+  comp : p.comp.length < 65536
+  tid : p.tid.length < 65536
+  tgid : p.tgid.length < 65536
+
+theorem showInt_length (i : Int) (hlo : int64Min ≤ i) (hhi : i ≤ int64Max) : (showInt i).length < 65536 := by
+  have h10 : (10 : Nat) ^ 19 = 10000000000000000000 := by decide
+  have hn : i.natAbs < 10 ^ 19 := by
+    rw [h10]; simp only [int64Min, int64Max] at hlo hhi; omega
+  have := natDigits_length i.natAbs i.natAbs 19 (by omega) hn
+  unfold showInt
+  split <;> (try simp only [List.length_cons]) <;> omega
+
+theorem utf8Valid_showInt (i : Int) : utf8Valid (showInt i) = true := by
+  apply utf8Valid_of_ascii
+  intro b hb
+  have hd := natDigits_digits i.natAbs i.natAbs
+  unfold showInt at hb
+  split at hb
+  · rcases List.mem_cons.1 hb with rfl | hb
+    · omega
+    · have := hd b hb; omega
+  · have := hd b hb; omega
+
+theorem entryOK_marshalKV (p : Params) (h : PWF p) (hs : PShort p) : ∀ e ∈ marshalKV p, EntryOK e := by
+  intro e he
+  rw [mem_marshalKV] at he
+  have strOK : ∀ (t s : Bytes), t ≠ [] → t.length < 65536 → utf8Valid t = true → utf8Valid s = true → s.length < 65536 →
+      EntryOK (t, sanitize s) := by
+    intro t s h1 h2 h3 h4 h5
+    refine ⟨h1, h2, ?_, h3, utf8Valid_sanitize s⟩
+    rw [sanitize_of_valid s h4]; exact h5
+  have intOK : ∀ (t : Bytes) (i : Int), t ≠ [] → t.length < 65536 → utf8Valid t = true → int64Min ≤ i ∧ i ≤ int64Max →
+      EntryOK (t, showInt i) := by
+    intro t i h1 h2 h3 h4
+    exact ⟨h1, h2, showInt_length i h4.1 h4.2, h3, utf8Valid_showInt i⟩
+  rcases he with ⟨_, rfl⟩ | ⟨_, rfl⟩ | ⟨i, hi, rfl⟩ | ⟨i, hi, rfl⟩ | ⟨_, rfl⟩ | ⟨hr, rfl⟩ | ⟨_, rfl⟩ | ⟨_, rfl⟩ | ⟨_, rfl⟩
+  · exact strOK _ _ (by decide) (by decide) (by decide) h.enc hs.enc
+  · exact strOK _ _ (by decide) (by decide) (by decide) h.comp hs.comp
+  · exact intOK _ _ (by decide) (by decide) (by decide) (h.clevel i hi)
+  · exact intOK _ _ (by decide) (by decide) (by decide) (h.cwinbits i hi)
+  · exact strOK _ _ (by decide) (by decide) (by decide) h.tid hs.tid
+  · exact ⟨by decide, by decide, by decide, by decide, by decide⟩
+  · exact strOK _ _ (by decide) (by decide) (by decide) h.tgid hs.tgid
+  · exact intOK _ _ (by decide) (by decide) (by decide) h.tgcount
+  · exact intOK _ _ (by decide) (by decide) (by decide) h.tgidx
+
+theorem marshalKV_keys_nodup (p : Params) : ((marshalKV p).map (·.1)).Nodup := by
+  have p1 : ∀ (c : Prop) [Decidable c] (t v : Bytes), List.Sublist ((if c then [] else [(t, v)]).map (·.1)) [t] := by
+    intro c _ t v; split <;> simp
+  have p2 : ∀ (c : Prop) [Decidable c] (t v : Bytes), List.Sublist ((if c then [(t, v)] else []).map (·.1)) [t] := by
+    intro c _ t v; split <;> simp
+  have hsub : List.Sublist ((marshalKV p).map (·.1))
+      ([tEnc] ++ [tComp] ++ [tClevel] ++ [tCwinbits] ++ [tTid] ++ [tReconnect] ++ [tTgid] ++ [tTgcount] ++ [tTgidx]) := by
+    rcases p with ⟨enc, comp, cl, cw, tid, rc, tgid, tgc, tgi⟩
+    simp only [marshalKV, List.map_append]
+    refine List.Sublist.append (List.Sublist.append (List.Sublist.append (List.Sublist.append (List.Sublist.append
+      (List.Sublist.append (List.Sublist.append (List.Sublist.append (p1 _ _ _) (p1 _ _ _)) ?_) ?_) (p1 _ _ _)) (p2 _ _ _))
+      (p1 _ _ _)) (p1 _ _ _)) (p1 _ _ _)
+    · cases cl <;> simp
+    · cases cw <;> simp
+  exact List.Nodup.sublist hsub (by decide)
+
+theorem unmarshalBin_marshalBin (p : Params) (h : PWF p) (hs : PShort p) :
+    unmarshalBin Params.zero (marshalBin p) = some p := by
+  unfold unmarshalBin marshalBin readKV
+  rw [readKVF_marshal (marshalKV p) [] _ (entryOK_marshalKV p h hs) (by simp) (marshalKV_keys_nodup p) (Nat.le_refl _)]
+  exact unmarshalKV_marshalKV p h
+
 end Iscp.Neg
